@@ -1,4 +1,5 @@
 import DoltVerif.Lemmas.ManFsStep
+import DoltVerif.Lemmas.ManText
 /-!
 C05 — The manifest is replaced atomically and never names a missing table file.
 
@@ -22,10 +23,11 @@ theorem inv_run (s : Sys) (hi : Inv s) (sts : List Step) (hs : SafeRun s sts) : 
   | nil => exact hi
   | cons st sts ih => exact ih _ (inv_step s hi st hs.1) hs.2
 
-/-- schedules without unlocked unlinks are safe -/
+/-- schedules without unlocked unlinks and without journal-manifest updates are safe -/
 def NoUnlockedUnlink : List Step → Prop
   | [] => True
   | .cUnlink _ _ :: _ => False
+  | .jw _ :: _ => False
   | _ :: sts => NoUnlockedUnlink sts
 
 theorem safe_of_noUnlocked (s : Sys) (sts : List Step) (h : NoUnlockedUnlink sts) : SafeRun s sts := by
@@ -114,6 +116,72 @@ theorem prune_deletes_only_unreferenced (s : Sys) (hi : Inv s) (a : Nat) (n : Na
       · intro hup; exact hnk' ((hi.pr a p hp hk).2 n hup)
     · exact absurd rfl hch
   · exact absurd rfl hch
+
+/-! ### the journal-manifest configuration -/
+
+/-- In a journaling store the process takes the LOCK when it opens the store (`jAcquire`) and keeps it; its
+`journalManifest.Update` (`spawnJournalWriter`, steps `jw`) neither locks per call nor runs `checkNewSpecsPresent`.
+`lifetime_lock_excludes`: while that process owns the LOCK, no other actor can be inside a manifest update or inside
+the unlink phase of a grace prune. -/
+theorem lifetime_lock_excludes (s : Sys) (hi : Inv s) (o b : Nat) (hl : s.lock = some o) (hne : b ≠ o) :
+    (s.actors b).holds = false := by
+  cases h : (s.actors b).holds with
+  | false => rfl
+  | true => have := hi.excl b h; rw [hl] at this; exact absurd (by simpa using this.symm) hne
+
+/-- `journal_refs_present`: the invariant (hence `refs_present`, `manifest_never_partial`, `crash_old_or_new`,
+`durable_refs_present`) is preserved by every step of a journal-manifest update under the explicit hypothesis that
+replaces the missing `checkNewSpecsPresent`: when the update validates, the table files it names are in the directory
+(`StepSafe s (.jw a)`).  The exclusive lifetime lock gives no such guarantee by itself — see the refutation below. -/
+theorem journal_refs_present (s : Sys) (hi : Inv s) (a : Nat)
+    (hsafe : ∀ w, s.actors a = .writer w → w.journal = true → w.pc = .compared → ∀ t ∈ w.new.specs, t ∈ s.fs.vis.tables) :
+    Inv (s.step (.jw a)) ∧ ∀ t ∈ (s.step (.jw a)).fs.vis.specs, t ∈ (s.step (.jw a)).fs.vis.tables :=
+  ⟨inv_step s hi (.jw a) hsafe, (inv_step s hi (.jw a) hsafe).fs.vis_good.2⟩
+
+/-- the statement for journal updates without that hypothesis -/
+def journal_refs_present_unrestricted_full : Prop :=
+  ∀ sts : List Step, (∀ a n, Step.cUnlink a n ∉ sts) → ∀ t ∈ (Sys.init.run sts).fs.vis.specs, t ∈ (Sys.init.run sts).fs.vis.tables
+
+/-- It is false: a journal-manifest update that names a table file which is not there is published (the file
+manifest's update would have been refused by `checkNewSpecsPresent`). -/
+theorem journal_refs_present_unrestricted_refuted : ¬ journal_refs_present_unrestricted_full := by
+  intro h
+  have := h [.jAcquire 0, .spawnJournalWriter 0 0 { lock := 1, root := 1, gcGen := 0, specs := [1] } false,
+             .jw 0, .jw 0, .jw 0, .jw 0, .jw 0, .jw 0, .jw 0, .jw 0] (by intro a n h; simp at h) 1 (by decide)
+  revert this
+  decide
+
+-- the same update by a file-manifest writer is refused; with the table landed first the journal update is fine and
+-- keeps the LOCK
+example :
+    (Sys.init.run [.spawnWriter 0 0 { lock := 1, root := 1, gcGen := 0, specs := [1] } false,
+      .w 0, .w 0, .w 0, .w 0, .w 0, .w 0, .w 0, .w 0, .w 0, .w 0]).fs.vis.manifest = none ∧
+    (let s := Sys.init.run [.jAcquire 0, .land 1, .spawnJournalWriter 0 0 { lock := 1, root := 1, gcGen := 0, specs := [1] } false,
+      .jw 0, .jw 0, .jw 0, .jw 0, .jw 0, .jw 0, .jw 0, .jw 0, .jw 0, .jw 0]
+     s.fs.vis.specs = [1] ∧ s.fs.vis.tables = [1] ∧ s.lock = some 0) := by decide
+
+/-! ### the manifest text format -/
+
+/-- `manifest_text_roundtrip`: `parseManifest (writeManifest m) = m` for the v5 text format, for every manifest whose
+nbfVers is non-empty and contains no ':', whose lock (non-zero), root and gcGen and spec names are 32-character base32
+strings, given a decimal codec of the chunk counts that round-trips and emits no ':' (strconv.FormatUint/ParseUint; a
+parameter).  Field order, separator and slice positions are tied to the source by `Tie.ManifestSteps.text_model`. -/
+theorem manifest_text_roundtrip (cd : ManText.DecCodec) (hc : ManText.Codec.OK cd) (m : ManText.Man) (hm : m.Valid) :
+    ∃ text, ManText.write cd m = .ok text ∧ ManText.parse cd text = .ok m :=
+  ManText.parse_write cd hc m hm
+
+/-- `strings.Split ∘ strings.Join = id` on fields without the separator -/
+theorem manifest_split_join (fs : List ManText.Str) (h : fs ≠ []) (hs : ∀ f ∈ fs, ManText.sep ∉ f) :
+    ManText.split (ManText.join fs) = fs := ManText.split_join fs h hs
+
+-- a concrete manifest through a toy (unary) count codec: the hypotheses are satisfiable and the functions compute
+example :
+    let cd : ManText.DecCodec := { enc := fun n => List.replicate n 'x', dec := fun s => if s.all (· == 'x') then some s.length else none }
+    let h (c : Char) : ManText.Str := List.replicate 32 c
+    let m : ManText.Man := { nbfVers := "__DOLT__".toList, lock := h 'a', root := h 'b', gcGen := h '0', specs := [{ name := h 'c', count := 3 }] }
+    (match ManText.write cd m with
+     | .ok t => (match ManText.parse cd t with | .ok m' => decide (m' = m) | .error _ => false)
+     | .error _ => false) = true := by decide
 
 /-! ### what the hypotheses exclude (both decided by the model; see design/C05.md for the replays) -/
 
